@@ -9,6 +9,7 @@ import (
 	"crypto/sha256"
 	"errors"
 	"math/bits"
+	"sync"
 )
 
 // Hash is a SHA-256 digest.
@@ -108,6 +109,7 @@ func (t *Tree) subproof(m, lo, hi int, b bool) []Hash {
 // computable in O(log^2 n).
 type Uniform struct {
 	perfect [64]Hash
+	mu      sync.Mutex
 	memo    map[uint64]Hash
 }
 
@@ -129,12 +131,17 @@ func (u *Uniform) Root(n uint64) Hash {
 	if n&(n-1) == 0 {
 		return u.perfect[bits.TrailingZeros64(n)]
 	}
-	if h, ok := u.memo[n]; ok {
+	u.mu.Lock()
+	h, ok := u.memo[n]
+	u.mu.Unlock()
+	if ok {
 		return h
 	}
 	k := split(n)
-	h := NodeHash(u.Root(k), u.Root(n-k))
+	h = NodeHash(u.Root(k), u.Root(n-k))
+	u.mu.Lock()
 	u.memo[n] = h
+	u.mu.Unlock()
 	return h
 }
 
